@@ -1,14 +1,36 @@
 (* C09 -- Writers refuse games newer than the supported version instead of losing data.
-   assert_max_version and MAX_SUPPORTED_VERSION are regenerated from src/io/slippi/mod.rs. *)
+   assert_max_version and MAX_SUPPORTED_VERSION are regenerated from src/io/slippi/mod.rs; writer models
+   Model/Writer.v (.slp) and Model/Slpp.v (.slpp). *)
 From Coq Require Import List NArith Bool.
-From Peppi Require Import Gen.Funs Proofs.C20Proof.
+From Coq.Strings Require Import Byte.
+From Peppi Require Import Base.Outcome Gen.Funs Model.Start Model.Parse Model.Reader Model.Writer Model.Slpp
+  Proofs.C20Proof Proofs.C09Proof Proofs.SlppProof.
 Local Open Scope N_scope.
 
+(* the regenerated guard is the lexicographic comparison with the regenerated maximum, for EVERY version triple *)
 Theorem C09_guard_iff : forall v, assert_max_version_ok v = true <-> lex3_le v MAX_SUPPORTED_VERSION.
 Proof. exact c09_max_iff. Qed.
 
 Theorem C09_max_value : MAX_SUPPORTED_VERSION = (3, 16, 0).
 Proof. exact c09_max_value. Qed.
 
+(* both writers return an error for EVERY game above the maximum ... *)
+Theorem C09_slp_writer_refuses : forall g,
+  assert_max_version_ok (st_version (g_start g)) = false -> slp_write g = Err EInvalid.
+Proof. exact slp_write_refuses. Qed.
+Theorem C09_slpp_writer_refuses : forall enc_peppi enc_meta enc_start enc_end enc_frames c g,
+  assert_max_version_ok (st_version (g_start (sg_game g))) = false ->
+  slpp_write enc_peppi enc_meta enc_start enc_end enc_frames c g = Err EInvalid.
+Proof. exact slpp_write_refuses. Qed.
+
+(* ... and the .slp writer returns an error ONLY then: at or below the maximum it never refuses (whatever else is wrong
+   with the game shows as a different outcome, never as the version error) *)
+Theorem C09_slp_writer_refuses_only_then : forall g e,
+  slp_write g = Err e -> assert_max_version_ok (st_version (g_start g)) = false /\ e = EInvalid.
+Proof. exact slp_write_err_only_version. Qed.
+
 Print Assumptions C09_guard_iff.
 Print Assumptions C09_max_value.
+Print Assumptions C09_slp_writer_refuses.
+Print Assumptions C09_slpp_writer_refuses.
+Print Assumptions C09_slp_writer_refuses_only_then.
